@@ -218,6 +218,7 @@ func (dt DateTime) Add(input Quantity) (DateTime, error) {
 			return DateTime{}, err
 		}
 		duration = roundToDateTimePrecision(dateTimeMap[dt.l], duration)
+		duration = truncateToLayout(dt.l, duration)
 		result = dt.dateTime.Add(duration)
 	}
 
@@ -272,6 +273,7 @@ func (dt DateTime) Sub(input Quantity) (DateTime, error) {
 			return DateTime{}, err
 		}
 		duration = roundToDateTimePrecision(dateTimeMap[dt.l], duration)
+		duration = truncateToLayout(dt.l, duration)
 		result = dt.dateTime.Add(-duration)
 	}
 	return DateTime{result, dt.l}, nil
